@@ -499,6 +499,7 @@ func ruleMigrateRound2(c *Ctx) {
 		ruleSourceImportKeys(c, "C14.15")
 		ruleChanDirMapping(c, "C14.16", migPkg)
 		ruleConverterHomeIsWirePackage(c, "C14.17")
+		ruleLoadErrorsOfEveryPackage(c, "C14.18")
 		ruleLoopsMakeProgress(c, "C14.12", migPkg)
 		ruleInspectVisitsEverything(c, "C14.11")
 	}
